@@ -93,8 +93,30 @@ def mutation_sites(fn):
     return sites
 
 
+PURITY_PROPS = {"C09"}
+
+
+def purity_sites(fi):
+    """effect-introducing edits (for the purity property the value mutants are irrelevant)"""
+    a = fi.node.args
+    params = [x.arg for x in a.posonlyargs + a.args]
+    if fi.name in ("__init__", "__new__", "__array_finalize__") or not params or params[0] != "self" or fi.is_static:
+        return []
+    return [("pure:store", 0, "insert `self._memo = None`"), ("pure:lru", 0, "decorate with functools.lru_cache"),
+            ("pure:dict", 0, "insert `self.__dict__.update(_seen=True)`")]
+
+
 def apply_mutation(fn, kind, index):
     fn = copy.deepcopy(fn)
+    if kind.startswith("pure:"):
+        pos = 1 if fn.body and isinstance(fn.body[0], ast.Expr) and isinstance(fn.body[0].value, ast.Constant) else 0
+        if kind == "pure:store":
+            fn.body.insert(pos, ast.parse("self._memo = None").body[0])
+        elif kind == "pure:dict":
+            fn.body.insert(pos, ast.parse("self.__dict__.update(_seen=True)").body[0])
+        else:
+            fn.decorator_list.append(ast.parse("functools.lru_cache").body[0].value)
+        return fn
     nodes = _nodes(fn)
     n = nodes[index]
     if kind == "bool":
@@ -296,7 +318,10 @@ def run(pid, ctx, seed):
     jobs_mut, jobs_rw = [], []
     for q in funcs:
         fi = program.functions[q]
-        for kind, idx, desc in mutation_sites(fi.node):
+        sites = purity_sites(fi) if pid in PURITY_PROPS else mutation_sites(fi.node)
+        if pid == "C18" and q.endswith(".add"):
+            sites = sites + purity_sites(fi)
+        for kind, idx, desc in sites:
             jobs_mut.append((q, kind, idx, desc))
         for name, rw in REWRITES:
             jobs_rw.append((q, name, rw))
